@@ -63,7 +63,7 @@ def monitors_child(rec):
     rng = random.Random(rec.seed + 13); nrng = np.random.default_rng(rec.seed + 130)
     quick = rec.tier == 'quick'
     tmp = tempfile.mkdtemp(prefix='c13_', dir=os.path.join(VERIF, '.cache'))
-    ev = 0; bad = 0
+    ev = 0; bad = 0; seen = set()
     try:
         for it in range(60 if quick else 600):
             dt = (INTS + FLOATS)[it % 11]
@@ -80,6 +80,9 @@ def monitors_child(rec):
             g.data = src
             desc = dict(dtype=dt, nrows=nr, ncols=nc, cellsize=repr(csz), xllcorner=repr(xll), yllcorner=repr(yll), nodata=repr(nod))
             child.progress('grid %d %s' % (it, dt))
+            seen.add(tuple(sorted(desc.items())) + (src.tobytes()[:64],))
+            if len(rec.samples) < 4:
+                rec.samples.append(dict(kind='grid round-trip case', first_values=[repr(v) for v in src.ravel()[:4]], **desc))
             # ---- the setter keeps the values of the type
             ev += 1
             if not same_bits(g.data, src):
@@ -252,11 +255,11 @@ def monitors_child(rec):
         shutil.rmtree(tmp, ignore_errors=True)
     rec.bounded_clause('Grid save/load (BIL + header, zip), rasters of either byte order, to_dict/from_dict (+JSON), clone (identical, independent), clip (parent values at coinciding centres); Catchment to_dict/from_dict (outlet, inlets, areas)',
                        '%d grids over 11 dtypes (full value range, NaN / inf), shapes 1x1..7x9, 7 cell sizes, 5x4 origins, 5 no-data values per type; %d delineated catchments with / without inlets' % (60 if quick else 600, 30 if quick else 300),
-                       ev, ev, False, bad)
+                       ev, len(seen), False, bad)
 
 
 def run(tier):
-    r = Run('C13', tier, level='other')
+    r = Run('C13', tier, level='exploration')
     cm.run_kernels(r, cm.kernels('c_coord2cell', 'c_cell2rowcol', 'c_cell2coord'))
     from vf import child
     res = child.run('props.C13', 'monitors_child', r.prop, r.tier, r.seed)
